@@ -78,6 +78,16 @@ class SOpaque(Sym):
     def __repr__(self):
         return "SOpaque(%s)" % (self.t,)
 
+class SIPStr(Sym):
+    """the dotted-quad text of four (symbolic) octets, as produced by
+    socket.inet_ntoa; inet_aton gives the octets back (trusted: the two are
+    mutually inverse on dotted quads)"""
+    __slots__ = ('octets',)
+    def __init__(self, octets):
+        self.octets = tuple(octets)
+    def __repr__(self):
+        return "SIPStr(%r)" % (self.octets,)
+
 def is_sym(v):
     return isinstance(v, Sym)
 
